@@ -660,7 +660,7 @@ func c11(c *Ctx) {
 	c11directed(c, coll)
 	K, N, NC, NCONC, maxOps, maxBatch := 4, 3000, 200, 100, 100, 4000
 	if c.Thorough {
-		K, N, NC, NCONC, maxOps, maxBatch = 6, 60000, 3000, 1500, 400, 20000
+		K, N, NC, NCONC, maxOps, maxBatch = 6, 30000, 3000, 400, 200, 8000
 	}
 	c11exhaustive(c, K)
 	for i := 0; i < N; i++ {
